@@ -100,6 +100,26 @@ Theorem C27_next_activation_euler :
 Proof. exact nextActivation_euler. Qed.
 Print Assumptions C27_next_activation_euler.
 
+(* mj_advance: the advanced activation of an activation-limited actuator lies in actrange for EVERY
+   dyntype of the model (integrator, filter, exact filter, muscle) and every act_dot *)
+Theorem C27_advance_in_range :
+  forall (mask : Z) (h : R) (a : @Actuator R) (act adot : R),
+    a_actnum a = 1%Z -> a_actlimited a = true -> fst (a_actrange a) <= snd (a_actrange a) ->
+    fst (a_actrange a) <= advance1 false mask h (a, act) adot <= snd (a_actrange a).
+Proof. exact advance_in_range. Qed.
+Print Assumptions C27_advance_in_range.
+
+(* activations are frozen with mjDSBL_ACTUATION, and for an actuator of a disabled group (in-range activation) *)
+Theorem C27_advance_frozen :
+  forall (mask : Z) (h : R) (a : @Actuator R) (act adot : R),
+    a_actnum a = 1%Z ->
+    advance1 true mask h (a, act) adot = act /\
+    (actuatorDisabled mask (a_group a) = true ->
+     (a_actlimited a = false \/ fst (a_actrange a) <= act <= snd (a_actrange a)) ->
+     advance1 false mask h (a, act) adot = act).
+Proof. exact advance_frozen. Qed.
+Print Assumptions C27_advance_frozen.
+
 (* joint actuator-force range: the clamped dof lands in the range; identity inside it *)
 Theorem C27_dof_clamped :
   forall (g : option R) (lo hi q : R), lo <= hi -> lo <= dof_post (g, true, lo, hi) q <= hi.
